@@ -56,7 +56,9 @@ RULES = {
     'stale': "one case = one seeded plan executed in the cache world without faults; non-trivial = a memory or disk "
              "hit was served for a file that had been modified before, or an editor write landed while a parse of "
              "that file was in flight; distinct = distinct sha1 of the full event log",
-    'diff': "one case = one seeded edit history (plan) executed against the diff parser; non-trivial = in at least "
+    'diff': "one case = one seeded edit history (plan) executed against the diff parser; every third seed is the "
+            "next (snippet, elementary edit kind) pair of a systematic sweep: the edit is applied at every line in "
+            "turn, each time followed by the undo; non-trivial = in at least "
             "one step the diff parser both copied old nodes and re-parsed a part; distinct = distinct sha1 of the "
             "event log (ops, seam steps, outcomes)",
 }
